@@ -257,7 +257,11 @@ def run_one(tapes, tier, scenario=None):
                 todo.append((i, ["net", n, what]))
                 i += 1
     first_bad = None
+    import os, time
+    dl = float(os.environ.get("VERIF_RUN_DEADLINE", "0") or 0)
     for sid, pl in todo:
+        if dl and time.time() > dl:
+            break
         viols, info = one_run(sc, pl, sid)
         subs.append(info)
         if info["herr"]:
